@@ -1,13 +1,29 @@
 import RoaringModel.TreemapOps
 import RoaringModel.Spec
+import RoaringModel.Lemmas.TreemapAlg
+import RoaringModel.Lemmas.TreemapMulti
+import RoaringModel.Lemmas.TreemapMultiLaws
 /-!
 # C11 — 64-bit set algebra, relations and multi-ops are exact (property theorems)
 
-State of the proofs: what is proved here needs no hypothesis — the `Result` forms of the multi-ops (first
-error wins, otherwise the fold), the empty sequence, and which operand forms share code.  The lifting of the
-four binary operations / relations / `*_len` / heap merge through the partition directory (from the 32-bit
-specifications `Ops32.Laws`) is **not yet proved**; it is listed in `gaps` of `bin/propcfg/C11.py` and is
-decided on generated inputs by the correspondence check only.
+MODEL: TreemapOps.lean (treemap/ops.rs, cmp.rs, multiops.rs), parametrised by the 32-bit operations `o : Ops32`;
+`Ops32.model` is the instance with the mirrored 32-bit functions, each in exactly the form the Rust calls
+(Ops.lean / Cmp.lean / MultiOps.lean) — the instance the driver runs.  SPEC: `Spec.sOr / sAnd / sSub / sXor`,
+`Spec.isSubset / isDisjoint`, the cardinalities, `Spec.multi` on strictly ascending lists of `u64`.
+Well-formedness: `TWF` (keys strictly ascending `u32`, every partition `Bitmap.WF` and non-empty — so an emptied
+partition must be *gone* from the result, which every theorem below includes).
+
+* The theorems named `…_partial` hold for **every** `o : Ops32` satisfying the 32-bit laws
+  (`Treemap.BinLaws o`, `Treemap.MultiLaws o`: result `Bitmap.WF` and `elems` = the SPEC operation).
+* The theorems without suffix are **unconditional**: they are about `Ops32.model`, whose laws are proved from the
+  32-bit property theorems (`binLaws_model` from C02/C08, `multiLaws_model` from C09 plus the well-formedness of
+  the 32-bit multi-op results, Lemmas/TreemapMultiLaws.lean).
+
+Proved at the partition level (Lemmas/TreemapAlg.lean, TreemapMulti.lean): the operand swaps on `len()`, the
+`Entry::Vacant/Occupied` flows, removal of emptied partitions and `keys_to_remove`, the `Pairs` merge-join, the
+wrapping `u64` arithmetic of the `*_len`, the ordered multi-ops over the keys of the first operand, and the
+heap-based k-way merge with grouping of equal keys **for an arbitrary min-extraction** of the heap (`IsExtractMin`:
+any entry of minimal key, the others in any order) with fuel that is never exhausted early.
 -/
 namespace Roaring.C11
 open Roaring Roaring.Treemap
@@ -50,5 +66,181 @@ theorem C11_forms (a b : Treemap) :
     xorOO o a b = xorAO o a b ∧ xorOR o a b = xorAR o a b ∧ xorRO o a b = xorAR o b a ∧
     isSuperset o a b = isSubset o b a :=
   ⟨rfl, rfl, rfl, rfl, rfl, rfl, rfl, rfl, rfl, rfl, rfl, rfl, rfl, rfl, rfl⟩
+
+
+/-! ### the four binary operations, six operand forms each -/
+
+/-- the protocol's view: operator × form (the form names of `Bitmap.Form`) -/
+def binop (o : Ops32) : Bitmap.BinOp → Bitmap.Form → Treemap → Treemap → Treemap
+  | .or, .oo => orOO o | .or, .or_ => orOR o | .or, .ro => orRO o | .or, .rr => orRR o | .or, .ao => orAO o | .or, .ar => orAR o
+  | .and, .oo => andOO o | .and, .or_ => andOR o | .and, .ro => andRO o | .and, .rr => andRR o | .and, .ao => andAO o | .and, .ar => andAR o
+  | .sub, .oo => subOO o | .sub, .or_ => subOR o | .sub, .ro => subRO o | .sub, .rr => subRR o | .sub, .ao => subAO o | .sub, .ar => subAR o
+  | .xor, .oo => xorOO o | .xor, .or_ => xorOR o | .xor, .ro => xorRO o | .xor, .rr => xorRR o | .xor, .ao => xorAO o | .xor, .ar => xorAR o
+
+/-- the SPEC operation of an operator -/
+def specBin : Bitmap.BinOp → List Nat → List Nat → List Nat
+  | .or => Spec.sOr | .and => Spec.sAnd | .sub => Spec.sSub | .xor => Spec.sXor
+
+variable {o}
+
+/-- **All 4 operators × 6 forms**, for every `Ops32` satisfying the 32-bit laws: the result is well-formed (no
+    empty partition survives) and its values are exactly the SPEC operation on the operands' values. -/
+theorem C11_all_forms_partial (L : BinLaws o) (op : Bitmap.BinOp) (fm : Bitmap.Form) (a b : Treemap)
+    (ha : TWF a) (hb : TWF b) :
+    TWF (binop o op fm a b) ∧ elems (binop o op fm a b) = specBin op (elems a) (elems b) := by
+  cases op <;> cases fm
+  · exact orOO_exact L a b ha hb
+  · exact orOR_exact L a b ha hb
+  · exact orRO_exact L a b ha hb
+  · exact orRR_exact L a b ha hb
+  · exact orAO_exact L a b ha hb
+  · exact orAR_exact L a b ha hb
+  · exact andOO_exact L a b ha hb
+  · exact andOR_exact L a b ha hb
+  · exact andRO_exact L a b ha hb
+  · exact andRR_exact L a b ha hb
+  · exact andAO_exact L a b ha hb
+  · exact andAR_exact L a b ha hb
+  · exact subOO_exact L a b ha hb
+  · exact subOR_exact L a b ha hb
+  · exact subRO_exact L a b ha hb
+  · exact subRR_exact L a b ha hb
+  · exact subAO_exact L a b ha hb
+  · exact subAR_exact L a b ha hb
+  · exact xorOO_exact L a b ha hb
+  · exact xorOR_exact L a b ha hb
+  · exact xorRO_exact L a b ha hb
+  · exact xorRR_exact L a b ha hb
+  · exact xorAO_exact L a b ha hb
+  · exact xorAR_exact L a b ha hb
+
+/-- **All 4 operators × 6 forms, unconditional** (the mirrored 32-bit operations). -/
+theorem C11_all_forms (op : Bitmap.BinOp) (fm : Bitmap.Form) (a b : Treemap) (ha : TWF a) (hb : TWF b) :
+    TWF (binop Ops32.model op fm a b) ∧ elems (binop Ops32.model op fm a b) = specBin op (elems a) (elems b) :=
+  C11_all_forms_partial binLaws_model op fm a b ha hb
+
+/-- union, every form -/
+theorem C11_or (fm : Bitmap.Form) (a b : Treemap) (ha : TWF a) (hb : TWF b) :
+    TWF (binop Ops32.model .or fm a b) ∧ elems (binop Ops32.model .or fm a b) = Spec.sOr (elems a) (elems b) :=
+  C11_all_forms .or fm a b ha hb
+/-- intersection, every form -/
+theorem C11_and (fm : Bitmap.Form) (a b : Treemap) (ha : TWF a) (hb : TWF b) :
+    TWF (binop Ops32.model .and fm a b) ∧ elems (binop Ops32.model .and fm a b) = Spec.sAnd (elems a) (elems b) :=
+  C11_all_forms .and fm a b ha hb
+/-- difference, every form -/
+theorem C11_sub (fm : Bitmap.Form) (a b : Treemap) (ha : TWF a) (hb : TWF b) :
+    TWF (binop Ops32.model .sub fm a b) ∧ elems (binop Ops32.model .sub fm a b) = Spec.sSub (elems a) (elems b) :=
+  C11_all_forms .sub fm a b ha hb
+/-- symmetric difference, every form -/
+theorem C11_xor (fm : Bitmap.Form) (a b : Treemap) (ha : TWF a) (hb : TWF b) :
+    TWF (binop Ops32.model .xor fm a b) ∧ elems (binop Ops32.model .xor fm a b) = Spec.sXor (elems a) (elems b) :=
+  C11_all_forms .xor fm a b ha hb
+
+/-- all six forms of one operator have the same values -/
+theorem C11_forms_agree (op : Bitmap.BinOp) (fm fm' : Bitmap.Form) (a b : Treemap) (ha : TWF a) (hb : TWF b) :
+    elems (binop Ops32.model op fm a b) = elems (binop Ops32.model op fm' a b) := by
+  rw [(C11_all_forms op fm a b ha hb).2, (C11_all_forms op fm' a b ha hb).2]
+
+/-! ### relations and cardinalities -/
+
+/-- `is_subset`, `is_superset`, `is_disjoint` (the `Pairs` merge-join over the two partition directories) -/
+theorem C11_relations_partial (L : BinLaws o) (a b : Treemap) (ha : TWF a) (hb : TWF b) :
+    isSubset o a b = Spec.isSubset (elems a) (elems b) ∧
+    (isSubset o a b = true ↔ ∀ x, x ∈ elems a → x ∈ elems b) ∧
+    isSuperset o a b = Spec.isSuperset (elems a) (elems b) ∧
+    isDisjoint o a b = Spec.isDisjoint (elems a) (elems b) ∧
+    (isDisjoint o a b = true ↔ ∀ x, x ∈ elems a → ¬ x ∈ elems b) :=
+  ⟨isSubset_spec L ha hb, isSubset_iff L ha hb, isSuperset_spec L ha hb, isDisjoint_spec L ha hb,
+   isDisjoint_iff L ha hb⟩
+
+theorem C11_relations (a b : Treemap) (ha : TWF a) (hb : TWF b) :
+    isSubset Ops32.model a b = Spec.isSubset (elems a) (elems b) ∧
+    (isSubset Ops32.model a b = true ↔ ∀ x, x ∈ elems a → x ∈ elems b) ∧
+    isSuperset Ops32.model a b = Spec.isSuperset (elems a) (elems b) ∧
+    isDisjoint Ops32.model a b = Spec.isDisjoint (elems a) (elems b) ∧
+    (isDisjoint Ops32.model a b = true ↔ ∀ x, x ∈ elems a → ¬ x ∈ elems b) :=
+  C11_relations_partial binLaws_model a b ha hb
+
+/-- `intersection_len` and `difference_len` are the cardinalities of `∩` and `−` (the plain `-` of
+    `difference_len` never underflows); `union_len` and `symmetric_difference_len` are the cardinalities of `∪`
+    and `⊕` modulo 2^64 — the wrapping arithmetic is exact unless the result is all 2^64 values. -/
+theorem C11_lens_partial (L : BinLaws o) (a b : Treemap) (ha : TWF a) (hb : TWF b) :
+    intersectionLen o a b = Spec.interLen (elems a) (elems b) ∧
+    differenceLen o a b = Spec.diffLen (elems a) (elems b) ∧ intersectionLen o a b ≤ len a ∧
+    unionLen o a b = Spec.unionLen (elems a) (elems b) % W64 ∧
+    symmetricDifferenceLen o a b = Spec.xorLen (elems a) (elems b) % W64 ∧
+    Spec.unionLen (elems a) (elems b) ≤ W64 ∧ Spec.xorLen (elems a) (elems b) ≤ W64 :=
+  ⟨intersectionLen_spec L ha hb, (differenceLen_spec L ha hb).1, (differenceLen_spec L ha hb).2,
+   unionLen_mod L ha hb, symmetricDifferenceLen_mod L ha hb, (length_sOr_sXor_le ha hb).1,
+   (length_sOr_sXor_le ha hb).2⟩
+
+theorem C11_lens (a b : Treemap) (ha : TWF a) (hb : TWF b) :
+    intersectionLen Ops32.model a b = Spec.interLen (elems a) (elems b) ∧
+    differenceLen Ops32.model a b = Spec.diffLen (elems a) (elems b) ∧ intersectionLen Ops32.model a b ≤ len a ∧
+    unionLen Ops32.model a b = Spec.unionLen (elems a) (elems b) % W64 ∧
+    symmetricDifferenceLen Ops32.model a b = Spec.xorLen (elems a) (elems b) % W64 ∧
+    Spec.unionLen (elems a) (elems b) ≤ W64 ∧ Spec.xorLen (elems a) (elems b) ≤ W64 :=
+  C11_lens_partial binLaws_model a b ha hb
+
+/-- `union_len` / `symmetric_difference_len` without the modulus, when the result is not all of `u64` -/
+theorem C11_union_xor_len (a b : Treemap) (ha : TWF a) (hb : TWF b) :
+    ((Spec.sOr (elems a) (elems b)).length < W64 → unionLen Ops32.model a b = Spec.unionLen (elems a) (elems b)) ∧
+    ((Spec.sXor (elems a) (elems b)).length < W64 →
+      symmetricDifferenceLen Ops32.model a b = Spec.xorLen (elems a) (elems b)) :=
+  ⟨fun h => unionLen_spec binLaws_model ha hb h, fun h => symmetricDifferenceLen_spec binLaws_model ha hb h⟩
+
+/-! ### multi-ops -/
+
+/-- **`MultiOps` on treemaps = the fold of the binary operation** (`∪`/`⊕` from `∅`, `∩`/`−` from the first
+    operand), owned and borrowed items, for every `Ops32` satisfying the 32-bit multi-op laws. -/
+theorem C11_multi_partial (M : MultiLaws o) (op : MultiOp) (owned : Bool) (ts : List Treemap)
+    (hts : ∀ t ∈ ts, TWF t) :
+    TWF (multi o op owned ts) ∧ elems (multi o op owned ts) = Spec.multi (specOf op) (ts.map elems) :=
+  multi_exact M op owned ts hts
+
+/-- **unconditional** (the mirrored 32-bit multi-ops, `MultiOps<RoaringBitmap>` / `MultiOps<&RoaringBitmap>`) -/
+theorem C11_multi (op : MultiOp) (owned : Bool) (ts : List Treemap) (hts : ∀ t ∈ ts, TWF t) :
+    TWF (multi Ops32.model op owned ts) ∧
+    elems (multi Ops32.model op owned ts) = Spec.multi (specOf op) (ts.map elems) :=
+  multi_exact multiLaws_model op owned ts hts
+
+/-- The same for **every min-extraction of the heap** (`BinaryHeap::peek_mut` under the reversed key order
+    returns *some* entry of minimal key; `IsExtractMin` allows any, with the other entries in any order): the
+    result is well-formed and is the fold, hence independent of the heap's tie-breaking; the executable model
+    is the instance `extractMin`. -/
+theorem C11_multi_any_heap {ext : List Peeked → Option (Peeked × List Peeked)} (hext : IsExtractMin ext)
+    (op : MultiOp) (owned : Bool) (ts : List Treemap) (hts : ∀ t ∈ ts, TWF t) :
+    TWF (multiWith Ops32.model ext op owned ts) ∧
+    elems (multiWith Ops32.model ext op owned ts) = Spec.multi (specOf op) (ts.map elems) ∧
+    multi Ops32.model op owned ts = multiWith Ops32.model extractMin op owned ts ∧ IsExtractMin extractMin :=
+  ⟨(multiWith_exact multiLaws_model hext op owned ts hts).1, (multiWith_exact multiLaws_model hext op owned ts hts).2,
+   multi_eq_multiWith _ op owned ts, isExtractMin_extractMin⟩
+
+/-- the fuel of the heap loop (`Σ` number of partitions) is never exhausted early: the loop ends with an empty
+    heap, for every min-extraction and every state whose remaining partitions fit the fuel -/
+theorem C11_multi_fuel {ext : List Peeked → Option (Peeked × List Peeked)} (hext : IsExtractMin ext)
+    (op : List Bitmap → Bitmap) (fuel : Nat) (st : MergeSt) (h : (TM.entries st.heap).length ≤ fuel) :
+    (mergeLoopWith ext op fuel st).heap = [] := mergeLoopWith_heap_nil hext op fuel st h
+
+/-- `Result` forms on an all-`Ok` sequence: `Ok` of the fold -/
+theorem C11_multi_result_ok {ε} (op : MultiOp) (owned : Bool) (ts : List Treemap) (hts : ∀ t ∈ ts, TWF t) :
+    ∃ t, multiTry (ε := ε) Ops32.model op owned (ts.map .ok) = .ok t ∧ TWF t ∧
+      elems t = Spec.multi (specOf op) (ts.map elems) :=
+  ⟨_, C11_result_ok Ops32.model op owned ts, (C11_multi op owned ts hts).1, (C11_multi op owned ts hts).2⟩
+
+/-! ### non-vacuity: the hypotheses are met by a three-partition treemap built through the public API -/
+
+example : TWF C10.tEx := C10.tEx_TWF
+example : elems (binop Ops32.model .xor .rr C10.tEx C10.tEx) = [] := by
+  rw [(C11_xor .rr _ _ C10.tEx_TWF C10.tEx_TWF).2]; decide +kernel
+example : elems (multi Ops32.model .or true [C10.tEx, [], C10.tEx]) = elems C10.tEx := by
+  rw [(C11_multi .or true _ (by
+    intro t ht
+    simp only [List.mem_cons, List.not_mem_nil, or_false] at ht
+    rcases ht with rfl | rfl | rfl
+    · exact C10.tEx_TWF
+    · exact WFd.nil
+    · exact C10.tEx_TWF)).2]
+  decide +kernel
 
 end Roaring.C11
